@@ -5,6 +5,8 @@ case = {"tree": <node>, "size": [cols] | [cols, rows], "moves": [[col, row], ...
 node (JSON lists, first element = kind):
   ["leaf", id, box(0/1), h, sel, api, cur|None, rej[list of rows], minw, wrap]     spy leaf (flow: h rows, h+1 below width wrap)
   ["fill"]                                         SolidFill background (bottom of an Overlay)
+  ["fleaf", id, w, h, sel]                         fixed spy leaf (size () only; oracle only); 'pack' options of Pile / Columns /
+                                                   Padding / Overlay around it give fixed subtrees; case size [] = rendered fixed
   ["pile", focus, [[opt, node], ...]]              opt = ["pack"] | ["given", n] | ["weight", n]
   ["columns", focus, dividechars, min_width, [[opt, box(0/1), node], ...]]   opt = ["given", n] | ["weight", n]
   ["padding", node, align, width, min_width|None, left, right]
@@ -17,8 +19,9 @@ node (JSON lists, first element = kind):
   ["overlay", top, bottom, align, width, valign, height, min_width|None, min_height|None, left, right, top, bottom]
   ["linebox", node, tline(0/1), bline(0/1)]
  oracle-only leaves / containers (no model, encode() returns None):
-  ["edit", id, nchars, edit_pos]  ["icon", id, nchars, cursor_pos]  ["button", id, nchars]  ["checkbox", id, nchars]
+  ["edit", id, nchars, edit_pos, caprows]  ["icon", id, nchars, cursor_pos]  ["button", id, nchars]  ["checkbox", id, nchars]
                                                    real urwid leaves whose text / label is their marker repeated nchars times
+                                                   (edit: caprows caption-only rows "#\n" above the edit text)
   ["gridflow", cell_width, hsep, vsep, align, focus, [node, ...]]   ["listbox", focus, [node, ...]]
 
 run_impl observes, on a freshly built tree: the rectangle of every spy leaf (read from the canvas text), the
@@ -131,6 +134,44 @@ def spy_classes():
             self._invalidate()
             return True
 
+    class SpyFixed(urwid.Widget):
+        """Fixed-size leaf (size () only): draws fw x fh markers, records mouse events."""
+        box = False
+        minw = 1
+        fixed = True
+
+        def __init__(self, ctx, lid, fw, fh, sel):
+            super().__init__()
+            self.ctx, self.lid, self.fw, self.fh = ctx, lid, fw, fh
+            self._selectable = bool(sel)
+            self._sizing = frozenset([urwid.FIXED])
+            self.ch = mark(lid).encode("utf-8")
+
+        def selectable(self):
+            return self._selectable
+
+        def sizing(self):
+            return self._sizing
+
+        def pack(self, size=(), focus=False):
+            return (self.fw, self.fh)
+
+        def nrows(self, size):
+            return self.fh
+
+        def render(self, size, focus=False):
+            self.ctx.log.append(("render", self.lid, tuple(size), bool(focus)))
+            return urwid.CompositeCanvas(urwid.TextCanvas([self.ch * self.fw for _ in range(self.fh)], maxcol=self.fw))
+
+        def keypress(self, size, key):
+            return key
+
+        def mouse_event(self, size, event, button, col, row, focus):
+            self.ctx.log.append(("mouse", self.lid, tuple(size), col, row, bool(focus)))
+            return True
+
+    _CLS["SpyFixed"] = SpyFixed
+
     def logged(base, off):
         """A real urwid leaf whose text is made of its marker; geometry calls are recorded, then performed."""
         class Real(base):
@@ -138,6 +179,7 @@ def spy_classes():
             minw = 1
             real = True
             text_off = off          # columns between the widget's left edge and the first marker character
+            row_off = 0             # rows between the widget's top edge and the first marker row (caption-only rows)
 
             def init_spy(self, ctx, lid):
                 self.ctx, self.lid = ctx, lid
@@ -187,15 +229,34 @@ def _wh(a):
     return a[0]
 
 
+def is_fixed_tree(node):
+    """A subtree that only works as a fixed widget (size ())."""
+    k = node[0]
+    if k == "fleaf":
+        return True
+    if k == "padding":
+        return node[3][0] == "pack" and is_fixed_tree(node[1])
+    if k == "attrmap":
+        return is_fixed_tree(node[1])
+    if k == "pile":
+        return all(o[0] == "pack" and is_fixed_tree(c) for o, c in node[2])
+    if k == "columns":
+        return all(o[0] == "pack" and is_fixed_tree(c) for o, _, c in node[4])
+    return False
+
+
 def child_modes(node, mode):
-    """Mode ('flow' | 'box') each child is asked to work in when node works in mode."""
+    """Mode ('flow' | 'box' | 'fixed') each child is asked to work in when node works in mode."""
     k = node[0]
     if k == "pile":
         if mode == "flow":
-            return ["box" if o[0] == "given" else "flow" for o, _ in node[2]]
-        return ["flow" if o[0] == "pack" else "box" for o, _ in node[2]]
+            return ["box" if o[0] == "given" else ("fixed" if o[0] == "pack" and is_fixed_tree(c) else "flow") for o, c in node[2]]
+        if mode == "fixed":
+            return ["fixed" for _ in node[2]]
+        return [("fixed" if is_fixed_tree(c) else "flow") if o[0] == "pack" else "box" for o, c in node[2]]
     if k == "columns":
-        return ["box" if (mode == "box" or b) else "flow" for _, b, _ in node[4]]
+        return ["fixed" if o[0] == "pack" and is_fixed_tree(c) else ("box" if (mode == "box" or b) else "flow")
+                for o, b, c in node[4]]
     if k in ("padding", "attrmap", "linebox"):
         return [mode]
     if k == "filler":
@@ -205,7 +266,7 @@ def child_modes(node, mode):
     if k == "boxadapter":
         return ["box"]
     if k == "overlay":
-        return ["flow" if node[6][0] == "pack" else "box", "box"]
+        return ["fixed" if node[4][0] == "pack" else ("flow" if node[6][0] == "pack" else "box"), "box"]
     if k == "gridflow":
         return ["flow"] * len(node[6])
     if k == "listbox":
@@ -233,6 +294,11 @@ def build1(node, ctx, mode):
         return w
     if k == "fill":
         return urwid.SolidFill(".")
+    if k == "fleaf":
+        _, lid, fw, fh, sel = node
+        w = spy_classes()["SpyFixed"](ctx, lid, fw, fh, sel)
+        ctx.leaves[lid] = w
+        return w
     if k == "pile":
         _, focus, items = node
         ws = []
@@ -247,7 +313,7 @@ def build1(node, ctx, mode):
         ws, boxes = [], []
         for i, (opt, isbox, ch) in enumerate(items):
             c = sub(ch)
-            ws.append((opt[0], opt[1], c))
+            ws.append(("pack", c) if opt[0] == "pack" else (opt[0], opt[1], c))
             if isbox:
                 boxes.append(i)
         w = urwid.Columns(ws, dividechars=dc, focus_column=focus, min_width=mw, box_columns=boxes)
@@ -287,7 +353,9 @@ def build1(node, ctx, mode):
         C = spy_classes()
         text = mark(lid) * n
         if k == "edit":
-            w = C["REdit"]("", text)
+            caprows = node[4] if len(node) > 4 else 0
+            w = C["REdit"]("#\n" * caprows, text)
+            w.row_off = caprows
             w.set_edit_pos(node[3])
         elif k == "icon":
             w = C["RIcon"](text, node[3])
@@ -342,7 +410,7 @@ def walk(node):
 
 def path_to_leaf(node, lid, acc=()):
     """Kinds of the ancestors (root first) of spy leaf lid, or None."""
-    if node[0] in ("leaf",) + tuple(REAL_LEAVES):
+    if node[0] in ("leaf", "fleaf") + tuple(REAL_LEAVES):
         return acc if node[1] == lid else None
     for c in children(node):
         r = path_to_leaf(c, lid, acc + (node[0],))
@@ -356,6 +424,8 @@ def fits_w(w, size, atomic=()):
     containers' own helper methods hand to their children (the precondition of the property)."""
     import urwid
     S = spy_classes()
+    if not size:
+        return True          # a fixed widget decides its own size; whether its leaves are fully drawn is read off the canvas
     maxcol = size[0]
     if maxcol < 1 or (len(size) == 2 and size[1] < 1):
         return False
@@ -454,7 +524,7 @@ class Subject:
         CanvasCache.clear()
         self.ctx = Ctx()
         self.size = tuple(case["size"])
-        self.w = build(case["tree"], self.ctx, "box" if len(self.size) == 2 else "flow")
+        self.w = build(case["tree"], self.ctx, ("fixed", "flow", "box")[len(self.size)])
 
     def render(self, focus=True):
         from urwid import CanvasCache
@@ -520,8 +590,13 @@ def observe(case, want_moves=True):
         (sz, foc) = calls[0]
         wcols, wrows = x1 - x0 + 1, y1 - y0 + 1
         need_rows = w.nrows(sz)
+        if getattr(w, "fixed", False):     # a fixed leaf: its own size
+            if n != wcols * wrows or wcols != w.fw or wrows != w.fh or sz != ():
+                fits = False
+            leaves.append([lid, x0, y0, wcols, wrows, 1 if foc else 0, -1, -1])
+            continue
         if getattr(w, "real", False):      # a real widget: its marker text starts text_off columns right of its corner
-            x0, wcols, wrows = x0 - w.text_off, sz[0], need_rows
+            x0, y0, wcols, wrows = x0 - w.text_off, y0 - w.row_off, sz[0], need_rows
         elif n != wcols * wrows or wcols != sz[0] or wrows != need_rows or sz[0] < w.minw or wrows < 1:
             fits = False
         leaves.append([lid, x0, y0, wcols, wrows, 1 if foc else 0, sz[0], sz[1] if len(sz) > 1 else -1])
@@ -546,7 +621,7 @@ def observe(case, want_moves=True):
                 mouse.append(err(e))
                 subj.restore_focus()
                 continue
-            got = [[e[1], e[3], e[4], 1 if e[5] else 0, e[2][0], e[2][1] if len(e[2]) > 1 else -1]
+            got = [[e[1], e[3], e[4], 1 if e[5] else 0, e[2][0] if e[2] else -1, e[2][1] if len(e[2]) > 1 else -1]
                    for e in subj.ctx.log if e[0] == "mouse"]
             mouse.append(0 if not got else (got[0] if len(got) == 1 else got))
             subj.restore_focus()
@@ -621,7 +696,7 @@ class Gen:
         k = r.choice(["edit", "edit", "icon", "button", "checkbox"])
         n = r.choice([1, 2, 3, 5, 9])
         if k == "edit":
-            return ["edit", self.nid(), n, r.randrange(n + 1)]
+            return ["edit", self.nid(), n, r.randrange(n + 1), r.choice([0, 0, 1, 2])]
         if k == "icon":
             return ["icon", self.nid(), n, r.randrange(n + 2)]
         return [k, self.nid(), n]
@@ -744,8 +819,10 @@ def estimate(node, cols=None):
         return node[8], (1 if node[2] else node[3])
     if k == "fill":
         return 1, 1
+    if k == "fleaf":
+        return node[2], node[3]
     if k in REAL_LEAVES:
-        return node[2] + {"edit": 1, "icon": 0, "button": 4, "checkbox": 4}[k], 1
+        return node[2] + {"edit": 1, "icon": 0, "button": 4, "checkbox": 4}[k], 1 + (node[4] if k == "edit" and len(node) > 4 else 0)
     cs = [estimate(c) for c in children(node)]
     if k == "pile":
         return max(c for c, _ in cs), sum(max(r, o[1] if o[0] == "given" else 1) for (c, r), (o, _) in zip(cs, node[2]))
@@ -849,10 +926,25 @@ def has_real(tree):
 
 
 def leaf_nodes(tree):
-    return {n[1]: n for n in walk(tree) if n[0] == "leaf" or n[0] in REAL_LEAVES}
+    return {n[1]: n for n in walk(tree) if n[0] in ("leaf", "fleaf") or n[0] in REAL_LEAVES}
 
 
 NO_MOVE_PROTOCOL = {"frame", "overlay", "listbox"}     # these classes define no move_cursor_to_coords
+
+
+def leaf_accepted(lnodes, calls, res, nmv):
+    """Did the leaf that was finally asked accept the cell?  (spy leaf: from its data; real Edit: what it answered)"""
+    if not calls:
+        return False
+    lid, c, r, sc, sr = calls[-1]
+    node = lnodes.get(lid)
+    if node is None:
+        return False
+    if node[0] == "leaf":
+        nrows = sr if node[2] else node[3] + (1 if sc < node[9] else 0)
+        return bool(node[4]) and 0 <= r < nrows and r not in node[7]
+    answers = [a for l2, a in (res.get("move_leaf_results") or [[]] * (nmv + 1))[nmv] if l2 == lid]
+    return bool(answers and answers[-1])
 
 
 def judge(case, res):
@@ -900,6 +992,14 @@ def judge(case, res):
     for n, got in enumerate(res["mouse"]):
         x, y = n % cols, n // cols
         i = text[y][x]
+        # whatever is drawn at the cell: an event handed to a leaf is expressed relative to that leaf's top-left
+        # corner, so it cannot lie left of, right of or above the leaf (rows BELOW a short column are passed on by
+        # Columns by design: observed on the unmodified tree, not judged)
+        if got and not isinstance(got, str):
+            for ev in (got if isinstance(got[0], list) else [got]):
+                if ev[4] >= 0 and (ev[1] < 0 or ev[2] < 0 or ev[1] >= ev[4]):
+                    msgs.append(f"mouse press at ({x},{y}) was delivered to leaf {ev[0]} with coordinates ({ev[1]},{ev[2]}) "
+                                f"outside the leaf (its width is {ev[4]}): the leaf is not drawn on that cell")
         if i < 0 or i not in rect:
             note("cell:no-leaf")
             if got:
@@ -927,6 +1027,13 @@ def judge(case, res):
         if mv == "noattr":
             note("move:no-method")
             continue
+        # whatever is drawn at the requested cell: when the request went down to a leaf that accepted it and the
+        # container reported success, the reported cursor must be on the requested row
+        if not isinstance(mv, str) and mv[0] and mv[2] != "noattr" and leaf_accepted(lnodes, mv[1], res, nmv):
+            if not isinstance(mv[2], list) or mv[2][1] != row:
+                msgs.append(f"after a successful move_cursor_to_coords({col},{row}) (accepted by leaf {mv[1][-1][0]} as "
+                            f"({mv[1][-1][1]},{mv[1][-1][2]})) get_cursor_coords reports {mv[2]}")
+                continue
         if not (0 <= row < len(text) and 0 <= col < cols):
             note("move:outside")
             continue
@@ -1112,6 +1219,10 @@ def simpler_nodes(node, mode):
             n2 = list(node)
             n2[3] = 0
             yield n2
+        if k == "edit" and len(node) > 4 and node[4] > 0:
+            n2 = list(node)
+            n2[4] = node[4] - 1
+            yield n2
 
 class C09(core.Check):
     pid = "C09"
@@ -1128,21 +1239,22 @@ class C09(core.Check):
                  "leaves; an oracle that reads the drawn leaf of every cell from the canvas")
     level_text = ("Proved in Coq for every tree built from Leaf (data-described Edit-like or inert leaf), Pile, Columns "
                   "(given / weight), Padding (given / relative), Filler (pack / given / relative), Frame, BoxAdapter, "
-                  "AttrMap, LineBox (as the Pile/Columns composition it is) and every size at which the tree fits (no "
-                  "child hidden or clipped), no bound on depth or size: (1) cursor_agree: get_cursor_coords = cursor of "
-                  "the focused rendering as placed by render (trees without Overlay); (2) mouse_hits_drawn_child + "
-                  "mouse_to_no_other_child (one level, every class) and mouse_reaches_drawn_leaf (whole tree): a press "
-                  "on any cell of a drawn child / leaf rectangle is routed to exactly that child / leaf with "
-                  "coordinates relative to its top-left corner and the size render gave it (Overlay: proved when the "
-                  "top widget is a box widget); (3) move_cursor_iff_child: move_cursor_to_coords succeeds exactly when "
-                  "the child drawn at the cell accepts the translated cell.  PARTIAL: cursor_on_requested_row is proved "
-                  "for moves that leave the focus of every Columns on the way unchanged (Pile focus may change); the "
-                  "case of a Columns whose focus moves is decided by correspondence + oracle.  REFUTED (witnesses "
-                  "replayed on the implementation, known findings): Overlay.get_cursor_coords raises TypeError / "
-                  "ValueError; Overlay hit-testing of a flow top widget (height='pack') uses rows at the overlay's "
-                  "full width.  Correspondence/oracle only: real Edit / SelectableIcon / Button / CheckBox leaves, "
-                  "GridFlow, ListBox (no model), get_pref_col, 'pack' columns, fixed widgets, Padding 'pack'/'clip'. "
-                  "Overlay pop-ups (PopUpLauncher/PopUpTarget) are not covered.")
+                  "AttrMap, Overlay (given / relative width; pack / given / relative height) and LineBox (as the "
+                  "Pile/Columns composition it is) and every size at which the tree fits (no child hidden or clipped), no "
+                  "bound on depth or size: (1) cursor_agree: get_cursor_coords = cursor of the focused rendering as "
+                  "placed by render; (2) mouse_hits_drawn_child + mouse_to_no_other_child (one level, every class) and "
+                  "mouse_reaches_drawn_leaf (whole tree): a press on any cell of a drawn child / leaf rectangle is routed "
+                  "to exactly that child / leaf with coordinates relative to its top-left corner and the size render "
+                  "gave it; (3) move_cursor_iff_child: move_cursor_to_coords succeeds exactly when the child drawn at "
+                  "the cell accepts the translated cell; plus three lemmas about the translated padding / filler "
+                  "arithmetic (margins never negative, top + height + bottom exact).  PARTIAL: cursor_on_requested_row "
+                  "is proved for moves that leave the focus of every Columns on the way unchanged (Pile focus may "
+                  "change); the case of a Columns whose focus moves is decided by correspondence + oracle.  The two "
+                  "Overlay statements refuted in the first round hold since the fix: commits ebf9945 / f18097d (former "
+                  "witnesses kept as regression Examples and corpus cases).  Correspondence/oracle only: real Edit / "
+                  "SelectableIcon / Button / CheckBox leaves, GridFlow, ListBox (no model), get_pref_col, 'pack' "
+                  "columns, fixed widgets, Padding 'pack'/'clip'.  Overlay pop-ups (PopUpLauncher/PopUpTarget) are "
+                  "not covered.")
     level_note = ("Trusted: Coq kernel, py2v translator, ExtrOcamlBasic extraction + OCaml driver, the hand-written "
                   "mirror of each method and of Pile.get_rows_sizes / get_item_rows, Columns.column_widths / "
                   "get_column_sizes, Frame.frame_top_bottom in Model/Geometry.v (validated by an exact "
@@ -1233,7 +1345,8 @@ class C09(core.Check):
             dist[k] = dist.get(k, 0) + v
         for n in walk(case["tree"]):
             dist["node:" + n[0]] = dist.get("node:" + n[0], 0) + 1
-        dist["mode:" + ("box" if len(case["size"]) == 2 else "flow")] = dist.get("mode:" + ("box" if len(case["size"]) == 2 else "flow"), 0) + 1
+        md = "mode:" + ("fixed", "flow", "box")[len(case["size"])]
+        dist[md] = dist.get(md, 0) + 1
 
     def nontrivial(self, case, res):
         return bool(res.get("fits")) and len(res.get("leaves", [])) >= 1
@@ -1267,9 +1380,18 @@ class C09(core.Check):
         cells = [(x, y) for y in range(rows) for x in range(cols)]
         grid = drawn_grid(res)
         leafcells = [(x, y) for (x, y) in cells if grid[y][x] >= 0]
+        # cells just outside a leaf rectangle (first row below, column beside, row above) that are still in the area
+        near = []
+        for _lid, x0, y0, w, h, *_ in res["leaves"]:
+            for (x, y) in ((x0, y0 + h), (x0 + w - 1, y0 + h), (x0 + w, y0), (x0 - 1, y0), (x0, y0 - 1)):
+                if 0 <= x < cols and 0 <= y < rows and grid[y][x] < 0:
+                    near.append((x, y))
         mv = []
-        for _ in range(n):
-            pool = leafcells if leafcells and rng.random() < 0.8 else cells
+        for k in range(n):
+            if near and k % 3 == 2:
+                pool = near
+            else:
+                pool = leafcells if leafcells and rng.random() < 0.8 else cells
             if pool:
                 mv.append(list(rng.choice(pool)))
         case["moves"] = mv
@@ -1303,11 +1425,99 @@ class C09(core.Check):
             c = self.overlay_case(rng)
             if c is not None:
                 yield c
+        # a real Edit with caption-only rows: every row of it is asked for the cursor
+        for i in range(60 if tier == "quick" else 600):
+            c = self.edit_case(rng)
+            if c is not None:
+                yield c
+        # fixed widgets (size ()): oracle only
+        for i in range(80 if tier == "quick" else 800):
+            c = self.fixed_case(rng)
+            if c is not None:
+                yield c
         # trees with real Edit / SelectableIcon / Button / CheckBox leaves, GridFlow and ListBox: oracle only
         for i in range(120 if tier == "quick" else 1500):
             c = self.random_case(rng, rng.choice([1, 2, 2, 3]), real=True, nmoves=4)
             if c is not None:
                 yield c
+
+    def edit_case(self, rng):
+        """A real Edit (often with caption-only rows) under a few random flow wrappers; every row of it is asked."""
+        g = Gen(rng, real=True)
+        tree = ["edit", g.nid(), rng.choice([1, 3, 6]), 0, rng.choice([0, 1, 1, 2])]
+        tree[3] = rng.randrange(tree[2] + 1)
+        for _ in range(rng.choice([0, 1, 1, 2, 3])):
+            k = rng.choice(["pile", "pile", "columns", "padding", "attrmap", "linebox", "filler"])
+            if k == "pile":
+                items = [[["pack"], tree]]
+                for _ in range(rng.choice([0, 1, 2])):
+                    items.insert(rng.randrange(len(items) + 1), [["pack"], g.leaf(False)])
+                tree = ["pile", rng.randrange(len(items)), items]
+            elif k == "columns":
+                items = [[["weight", 1], 0, tree]]
+                for _ in range(rng.choice([0, 1])):
+                    items.insert(rng.randrange(len(items) + 1), [["given", rng.choice([2, 3])], 0, g.leaf(False)])
+                tree = ["columns", rng.randrange(len(items)), rng.choice([0, 1]), 1, items]
+            elif k == "padding":
+                tree = g.padding(tree)
+            elif k == "attrmap":
+                tree = ["attrmap", tree]
+            elif k == "linebox":
+                tree = ["linebox", tree, 1, 1]
+            else:
+                tree = ["filler", tree, g.valign(), ["pack"], None, rng.choice([0, 1]), rng.choice([0, 1])]
+        box = tree[0] == "filler" and rng.random() < 0.7
+        got = self.sized(rng, tree, box)
+        if got is None:
+            return None
+        case, res = got
+        rect = [l for l in res["leaves"] if l[0] == 0]
+        if not rect:
+            return None
+        _, x0, y0, w, h = rect[0][:5]
+        rows = list(range(max(0, y0 - 1), min(res["rows"], y0 + h + 1)))
+        case["moves"] = [[min(res["cols"] - 1, max(0, x0 + rng.randrange(w))), y] for y in rows[:6]]
+        return case
+
+    def fixed_tree(self, g, rng, d):
+        if d <= 0 or rng.random() < 0.35:
+            return ["fleaf", g.nid(), rng.choice([1, 2, 3, 5]), rng.choice([1, 1, 2]), 1 if rng.random() < 0.6 else 0]
+        k = rng.choice(["padding", "padding", "attrmap", "pile", "columns"])
+        if k == "padding":
+            return ["padding", self.fixed_tree(g, rng, d - 1), g.align(), ["pack"], None, rng.choice([0, 1, 2, 3]), rng.choice([0, 1, 2])]
+        if k == "attrmap":
+            return ["attrmap", self.fixed_tree(g, rng, d - 1)]
+        if k == "pile":
+            items = [[["pack"], self.fixed_tree(g, rng, d - 1)] for _ in range(rng.choice([1, 2, 2]))]
+            return ["pile", rng.randrange(len(items)), items]
+        items = [[["pack"], 0, self.fixed_tree(g, rng, d - 1)] for _ in range(rng.choice([1, 2, 2]))]
+        return ["columns", rng.randrange(len(items)), rng.choice([0, 1]), 1, items]
+
+    def fixed_case(self, rng):
+        """Widgets rendered with size (): alone, as a 'pack' item of a flow Pile / Columns, or as the top of an Overlay."""
+        g = Gen(rng)
+        ft = self.fixed_tree(g, rng, rng.choice([1, 2, 2, 3]))
+        kind = rng.choice(["alone", "alone", "overlay", "pile", "columns"])
+        if kind == "alone":
+            case = {"tree": ft, "size": [], "moves": []}
+            try:
+                res = observe(case, want_moves=False)
+            except Exception:  # noqa: BLE001
+                return None
+            return case if res.get("fits") else None
+        if kind == "overlay":
+            tree = ["overlay", ft, ["fill"], g.align(), ["pack"], g.valign(), ["pack"], None, None,
+                    rng.choice([0, 0, 1]), rng.choice([0, 0, 1]), rng.choice([0, 0, 1]), rng.choice([0, 0, 1])]
+            got = self.sized(rng, tree, True)
+        elif kind == "pile":
+            items = [[["pack"], ft], [["pack"], g.leaf(False)]]
+            rng.shuffle(items)
+            got = self.sized(rng, ["pile", rng.randrange(2), items], False)
+        else:
+            items = [[["pack"], 0, ft], [["weight", 1], 0, g.leaf(False)]]
+            rng.shuffle(items)
+            got = self.sized(rng, ["columns", rng.randrange(2), rng.choice([0, 1]), 1, items], False)
+        return got[0] if got else None
 
     def overlay_case(self, rng):
         g = Gen(rng)
@@ -1329,7 +1539,7 @@ class C09(core.Check):
     def shrink_candidates(self, case):
         tree, size, moves = case["tree"], list(case["size"]), case["moves"]
         box = len(size) == 2
-        mode = "box" if box else "flow"
+        mode = ("fixed", "flow", "box")[len(size)]
         if moves:
             yield {"tree": tree, "size": size, "moves": []}
         # a child of the root in place of the root (its own mode, a few sizes)
@@ -1338,6 +1548,8 @@ class C09(core.Check):
                 continue
             if m == mode:
                 yield {"tree": c, "size": size, "moves": moves}
+            elif m == "fixed":
+                yield {"tree": c, "size": [], "moves": []}
             elif m == "flow":
                 yield {"tree": c, "size": size[:1], "moves": moves}
             else:
@@ -1352,7 +1564,7 @@ class C09(core.Check):
             for new in simpler_nodes(node, m):
                 yield {"tree": replace_at(tree, path, new), "size": size, "moves": moves}
         # smaller sizes
-        if size[0] > 1:
+        if size and size[0] > 1:
             yield {"tree": tree, "size": [size[0] - 1] + size[1:], "moves": moves}
         if box and size[1] > 1:
             yield {"tree": tree, "size": [size[0], size[1] - 1], "moves": moves}
